@@ -32,6 +32,7 @@ import (
 	"path/filepath"
 	"strconv"
 	"strings"
+	"sync/atomic"
 	"syscall"
 	"testing"
 	"time"
@@ -809,6 +810,10 @@ func c12Exec(rig *c12Rig, kinds []c12Kind, c *c12Case) *c12Run {
 	return r
 }
 
+// c12Sampled counts the example cases handed to the evidence for the running part (examples only, never a verdict).
+var c12Sampled atomic.Int64
+var c12SampleHere bool
+
 // c12Judge runs a case on the most kernel-faithful flow and reports.
 func c12Judge(rig *c12Rig, kinds []c12Kind, c c12Case, res *mc.Result, l *mc.Local, ds *mc.DistinctSet) {
 	r := c12Exec(rig, kinds, &c)
@@ -865,7 +870,8 @@ func c12Judge(rig *c12Rig, kinds []c12Kind, c c12Case, res *mc.Result, l *mc.Loc
 			}
 		}
 	}
-	if l.Evals%4099 == 1 || r.nWrites >= 5 && l.Evals%257 == 2 {
+	// one readable example per part (bin/check shows at most 24 over all parts): shard 0, first case with >= 3 writes
+	if c12SampleHere && r.nWrites >= 3 && c12Sampled.CompareAndSwap(0, 1) {
 		res.Sample(fmt.Sprintf("%s -> %d file writes, each judged as a crash point: %s", strings.Join(c12ShowCase(r.k, &c), " "), r.nWrites, strings.Join(r.trace, " ; ")))
 	}
 	for d := range dirs {
@@ -949,7 +955,8 @@ func c12Plan(kinds []c12Kind, thorough bool) []c12Part {
 	}
 	add("cpuset", "", "chain2/4", "chain2/4/cwf/a", "chain2/4/cwf/n", "chain1/4", "chain1/4/cwf/a", "chain3/4", "chain3/4/cwf/n", "fan2/4", "fan2/3/cwf/n")
 	// the two big blocks: cache mode force re-runs every updater in pass 2 and is covered on the smaller trees
-	add("cpuset", "-fan2g", "fan2g/4/cw")
+	add("cpuset", "-fan2g-cold", "fan2g/4/c")
+	add("cpuset", "-fan2g-warm", "fan2g/4/w")
 	add("cpuset", "-chain3-5cpu", "chain3/5/cw")
 	return parts
 }
@@ -998,6 +1005,8 @@ func TestVerifC12Leveled(t *testing.T) {
 		k := &kinds[p.ki]
 		helper.SetCgroupsV2(p.v2)
 		res := mc.NewResult("C12", p.name, "faults")
+		c12Sampled.Store(0)
+		c12SampleHere = env.Shard == 0
 		var blocks []c12Block
 		var total int64
 		bounds := map[string]any{}
